@@ -1,5 +1,6 @@
 import SaphyrModel.Sim
 import SaphyrModel.Api
+import SaphyrModel.Proofs.AnchorsStep
 /-! Lifting the one-step simulation `parseStep_good` to whole runs of the iterator. -/
 namespace SaphyrModel
 
@@ -120,5 +121,62 @@ theorem iterate_sound (fuel : Nat) (a : Api) (g : G) (h : IterInv a g) :
       (∀ x, (iterate fuel a []).2 = some (.panic x) → x = .fuel) ∧
       ((iterate fuel a []).2 = none → g' = ⟨2, []⟩) := by
   rw [iterate_eq]; simpa using iterSpec_sound fuel a g h
+
+end SaphyrModel
+
+namespace SaphyrModel
+
+/-- specification of the anchor-id discipline over a whole event stream: `n` is the next id to be
+    handed out; an anchored node must take exactly `n`, an alias must refer to an id below `n` -/
+def aStep (n : Nat) (ev : Event) : Option Nat :=
+  match ev with
+  | .alias id => if 1 ≤ id ∧ id < n then some n else none
+  | .scalar _ _ a _ | .sequenceStart a _ | .mappingStart a _ =>
+    if a = 0 then some n else if a = n then some (n + 1) else none
+  | _ => some n
+
+def aRun (n : Nat) : List Event → Option Nat
+  | [] => some n
+  | e :: es => (aStep n e).bind (aRun · es)
+
+theorem EvSpec.aStep {n n' : Nat} {ev : Event} (h : EvSpec n ev n') (hn : 1 ≤ n) : aStep n ev = some n' := by
+  cases ev <;> simp_all [EvSpec, SaphyrModel.aStep]
+  all_goals (first | omega | (rcases h with ⟨h1, h2⟩ | ⟨h1, h2⟩ <;> simp_all <;> omega))
+
+theorem iterSpec_anchors (fuel : Nat) (a : Api) (hc : a.current = none) (hp : AInv a.p) :
+    ∃ n', aRun a.p.anchorId ((iterSpec fuel a).1.map (·.1)) = some n' := by
+  induction fuel generalizing a with
+  | zero => exact ⟨a.p.anchorId, by simp [iterSpec, aRun]⟩
+  | succ k ih =>
+    simp only [iterSpec]
+    cases hl : a.endEmitted with
+    | true =>
+      have : a.next = (none, a) := by simp [Api.next, hl]
+      simp only [this]
+      exact ⟨a.p.anchorId, by simp [aRun]⟩
+    | false =>
+      cases hs : parseStep a.p with
+      | err e =>
+        have : a.next = (some (.err e), a) := by simp [Api.next, hl, nextImpl, hc, hs]
+        simp only [this]
+        exact ⟨a.p.anchorId, by simp [aRun]⟩
+      | panic x =>
+        have : a.next = (some (.panic x), a) := by simp [Api.next, hl, nextImpl, hc, hs]
+        simp only [this]
+        exact ⟨a.p.anchorId, by simp [aRun]⟩
+      | ok o =>
+        obtain ⟨ev, sp, p'⟩ := o
+        have : a.next = (some (.ok (ev, sp)), { p := p', current := none, endEmitted := (ev == .streamEnd) }) := by
+          simp [Api.next, hl, nextImpl, hc, hs]
+        simp only [this]
+        have hstep := parseStep_anch a.p ev sp p' hs hp
+        obtain ⟨n', hn'⟩ := ih { p := p', current := none, endEmitted := (ev == .streamEnd) } rfl hstep.1
+        refine ⟨n', ?_⟩
+        simp only [List.map_cons, aRun, hstep.2.aStep hp.1, Option.bind_some]
+        exact hn'
+
+theorem iterate_anchors (fuel : Nat) (a : Api) (hc : a.current = none) (hp : AInv a.p) :
+    ∃ n', aRun a.p.anchorId ((iterate fuel a []).1.map (·.1)) = some n' := by
+  rw [iterate_eq]; simpa using iterSpec_anchors fuel a hc hp
 
 end SaphyrModel
